@@ -39,3 +39,25 @@ def pmap(fn, items, chunk=64, workers=16):
         return [fn(x) for x in items]
     with ProcessPoolExecutor(max_workers=workers) as ex:
         return list(ex.map(fn, items, chunksize=chunk))
+
+# ---------------------------------------------------------------------------------------
+# end-to-end conversion with a canonical, date-free serialisation
+# ---------------------------------------------------------------------------------------
+import re as _re
+_DATE = _re.compile(r'date="\d{4}-\d{2}-\d{2}"')
+
+def canon_xml(xml):
+    from lxml import etree
+    s = etree.tostring(xml, encoding='unicode')
+    return _DATE.sub('date="D"', s)
+
+def e2e(args):
+    """(text, root[, prefix]) -> canonical xml string or ['ERR', kind]"""
+    text, root = args[0], args[1]
+    prefix = args[2] if len(args) > 2 else ''
+    try:
+        return canon_xml(parser(prefix).parse_to_xml(text, root))
+    except RecursionError:
+        return ['ERR', 'Recursion']
+    except Exception as e:
+        return ['ERR', exc_kind(e)]
